@@ -26,4 +26,11 @@ BIN=engine/target/release/verif
 if [ "$MODE" = "--replay" ]; then
   exec "$BIN" replay "$ID" "${3:?replay path}"
 fi
+if [ "$ID" = "C10" ] && [ "$MODE" = "thorough" ] && [ -z "${VERIF_NO_FUZZ:-}" ]; then
+  # Thorough C10 = the generated-text search, then a bounded coverage-guided campaign (libFuzzer)
+  # whose crash artifacts are confirmed by the same oracle (fuzz/run_c10.sh).
+  "$BIN" check "$ID" --tier "$MODE"; rc=$?
+  [ $rc -ne 0 ] && exit $rc
+  exec fuzz/run_c10.sh
+fi
 exec "$BIN" check "$ID" --tier "$MODE"
